@@ -12,6 +12,8 @@ CONSTANTS
   IdCases = {"upper"}
   HonestModes = {TRUE}
   AnswerKinds = {"ok", "err", "garbage", "close"}
+  Restores = {11, 22}
+  DecSpawn = {FALSE}
   NormalisedRemove = TRUE
 CONSTRAINT QBound
 INVARIANT TypeOK
@@ -25,6 +27,7 @@ INVARIANT NotifiedWithNewNumber
 INVARIANT RemovedMeansGone
 INVARIANT NoUpdatesWhileRemoving
 INVARIANT ConnectsToLatest
+INVARIANT CallbackNeverRaises
 PROPERTY ProcessesCurrentRecord
 PROPERTY NoWorkAfterShutdown
 CHECK_DEADLOCK FALSE
